@@ -46,12 +46,12 @@ def run_cli(argv):
         sys.argv = old
 
 
-def run_scenario(chk, sc, cfgseed, how, field, axes, scale):
+def run_scenario(chk, sc, cfgseed, how, field, axes, scale, ext=6, ext_cut=False):
     from amr_kitchen import PlotfileCooker
     from amr_kitchen.pestle import volume_integral
     rng = random.Random(cfgseed)
     cfg_ = gamma.Config.draw(rng, ndims=3, payload="tame")
-    lat = lattice.Lattice(sc["mesh"], sc["n1"], sc["n2"], axes=axes, ext0=6 * scale, ext_cut=False, scale=scale)
+    lat = lattice.Lattice(sc["mesh"], sc["n1"], sc["n2"], axes=axes, ext0=ext * scale, ext_cut=ext_cut, scale=scale)
     special = {2: lambda lv, shape: np.ones(shape),
                3: lambda lv, shape: np.random.default_rng(cfgseed + lv).uniform(0.0, 1.0, shape)}
     flds = lattice.Fields(lat, cfgseed, payload="tame", special=special)
@@ -109,10 +109,11 @@ def run(chk, replay):
                 "temp, blocking factor 2/4/8, all axis assignments; signature = (levels, limit, volfrac, extents present, "
                 "aligned/misaligned, partial/full refinement, entry point, field, blocking factor); trivial = one level")
     chk.assumptions = ["relative tolerance 1e-11 of the sum of absolute terms (summation order)",
-                       "boxes and domain are multiples of an even blocking factor along all three axes; the extruded axis is never the smallest box extent"]
+                       "boxes and domain are multiples of an even blocking factor along all three axes (extruded axis: 2, 3 or 2 x 2 blocks)"]
     if replay:
         s = replay["scenario"]
-        v = run_scenario(chk, s["sc"], s["cfgseed"], s["how"], s["field"], tuple(s["axes"]), s["scale"])
+        v = run_scenario(chk, s["sc"], s["cfgseed"], s["how"], s["field"], tuple(s["axes"]), s["scale"],
+                         s.get("ext", 6), s.get("ext_cut", False))
         chk.executed("replay")
         if v:
             chk.violation(s["sigs"], v, s)
@@ -136,11 +137,15 @@ def run(chk, replay):
         axes = perms[i % 6]
         scale = [1, 2, 4][(i // 2) % 3] if len(sc["mesh"]) < 3 else 1
         cfgseed = chk.rng.randrange(1 << 30)
-        v = run_scenario(chk, sc, cfgseed, how, field, axes, scale)
-        sigs = util.sig_str(sc["sig"], how, field, scale)
+        # extent of the boxes along the extruded axis, in lattice cells: as the in-plane extents (4), between (6), or twice
+        # as long and cut into two slabs (8) -- so that "all extents are multiples of X" can hold along all three axes
+        ext = [6, 4, 8][(i // 6) % 3]
+        ext_cut = ext == 8
+        v = run_scenario(chk, sc, cfgseed, how, field, axes, scale, ext, ext_cut)
+        sigs = util.sig_str(sc["sig"], how, field, scale, "ext%d" % ext)
         chk.executed(sigs, sc["sig"][0] > 1, sample={"mesh": sc["mesh"], "lim": sc["lim"], "volfrac": sc["volfrac"],
                                                      "how": how, "field": field, "axes": axes, "blocking_factor": 2 * scale})
         chk.traces += 1
         if v:
             chk.violation(sigs, v, {"sc": sc, "cfgseed": cfgseed, "how": how, "field": field, "axes": axes,
-                                    "scale": scale, "sigs": sigs})
+                                    "scale": scale, "sigs": sigs, "ext": ext, "ext_cut": ext_cut})
